@@ -5,7 +5,7 @@ PROP = dict(
         "ntp_proto::packet::extension_fields::{ExtensionFieldData::{deserialize,serialize}, ExtensionField::{decode,serialize,encode_framing,encode_padding,write_zeros,encode_unique_identifier}}",
     ],
     bounds="v3 and v4 48-byte headers (every mode and leap value for v3; v3 client + v4 server in the quick tier), other 47 bytes symbolic; v4 header + one 28-byte unique-id field. Oracle: encode Ok; encoding == normal form of the input computed from the wire format (here: identity), all bytes; decode(encoding) == packet; second encoding identical.",
-    outside="NOT VERIFIED IN TIME (harnesses prepared in c24.rs, one image each, 5-15 min of CBMC each on the loaded machine): MACs of 4/5/20/24 bytes, v4 cookie/draft-type/placeholder/multi-field images, v4 fields below the RFC 7822 minimum (padded by the encoder: only encode-Ok/decodes/stable required), all NTPv5 images (odd lengths, reference-id request/response, second draft field, symbolic v5 header). Packets with NTS fields (not accepted without keys); serialize's desired_size padding.",
+    outside="NOT VERIFIED IN TIME (harnesses prepared in c24.rs, one image each, 5-15 min of CBMC each on the loaded machine): MACs of 4/5/20/24 bytes, v4 cookie/draft-type/placeholder/multi-field images, v4 fields below the RFC 7822 minimum (padded by the encoder: only encode-Ok/decodes/stable required), all NTPv5 images (odd lengths, reference-id request/response, second draft field, symbolic v5 header); c24_rt_v5_req8 / c24_rt_v5_req16 (aligned reference-id requests, the must-pass side of the known finding) were run again on the less loaded machine: still in symbolic execution after 19 min at 8-10 GB RSS (12 GB cap), stopped. Packets with NTS fields (not accepted without keys); serialize's desired_size padding.",
     assumptions=[
         "c24_rt_v5_req*: reference-id request with payload length not a multiple of 4 excluded (finding; harness c24_rt_v5_kf_refid_req_unaligned expected to fail)",
     ],
